@@ -366,7 +366,7 @@ def step (d : DS) (t : List String) : DS × String :=
     | some e =>
       -- stamp bookkeeping events that ride on the same hook line (C05 rules R1/R2 of Model.Producer)
       let extra : List Ev :=
-        if kind = "pp.seq" then [.stamp (int! id) (int! b) (int! a)]
+        if kind = "pp.seq" then [.stamp (int! id) (int! b) (int! a), .stampAt (int! p) (int! b) (int! a)]
         else if kind = "bp.sent.stamp" then (if int! a ≥ 0 then [.setStamp (int! a) (int! b)] else [])  -- epoch −1: not idempotent
         else if kind = "bp.sent" then [.sent (int! id) (int! b)]
         else if kind = "bp.sent.end" then [.sentEnd]
